@@ -339,7 +339,7 @@ class LoadTracer(PagingTracer):
                                         loops = min((state[0] - registers[25]) // acc.loop_time + 1, 255 - counter)
                                     else:
                                         # DEC r
-                                        loops = min((state[0] - registers[25]) // acc.loop_time + 1, counter - 1)
+                                        loops = min((state[0] - registers[25]) // acc.loop_time + 1, max(counter - 1, 0))
                                     if loops:
                                         if acc.inc:
                                             # INC r
